@@ -24,11 +24,33 @@ def real(name, **tags):
 
 def install(it):
     lib = it.lib.overrides
-    lib["jax.lax.stop_gradient"] = lambda t: tree_map(lambda x: SV(x.e, x.elem, dict(x.tags or {}, nograd=True)) if isinstance(x, SV) else x, t)
+    # T3 jax.lax.stop_gradient: identity on array values with a zero cotangent; a Python int / float / bool leaf comes back as a
+    # jax ARRAY (measured: stop_gradient(2) is Array(2, dtype=int32, weak_type=True)) -- i.e. a tracer under jit, which static
+    # fields such as `shape` must never become
+    def stop_gradient(t):
+        def leaf(x):
+            if isinstance(x, SV):
+                return SV(x.e, x.elem, dict(x.tags or {}, nograd=True))
+            if isinstance(x, (bool, int, float, complex)):
+                return ArrayifiedScalar(x)
+            return x
+        return tree_map(leaf, t)
+
+    lib["jax.lax.stop_gradient"] = stop_gradient
     lib["jax.numpy.vectorize"] = lambda f, signature=None, excluded=frozenset(): (lambda x, c=None: f(x, c))
     lib["jax.numpy.asarray"] = lambda a, *r, **k: a
     from fjvc.lib import TypeMarker
     lib["jaxtyping.ArrayLike"] = TypeMarker("ArrayLike", check=lambda v: True)
+
+
+class ArrayifiedScalar:
+    """a Python scalar that went through a jax primitive: no longer a static Python value"""
+
+    def __init__(self, v):
+        self.v = v
+
+    def __repr__(self):
+        return f"jax.Array({self.v!r})"
 
 
 def wrapper_free(it, tree):
@@ -146,7 +168,7 @@ def unwrap_nestings(ctx):
         v = p.value
         expect = {"model": Obj(Aff, loc=a, scale=SV(softplus(b.e)), shape=("n",)), "list": [SV(z3.If(m.e, a.e, c.e)), 3, "static"], "tuple": ({"w": c, "k": 7}, None)}
         ok, eqs = same_tree(v, expect)
-        ctx.oblige("C12/unwrap[containers]/post/structure_preserved_wrappers_replaced", bool(ok), [], props, kind="struct", fn=fnq)
+        ctx.oblige("C12/unwrap[containers]/post/structure_preserved_wrappers_replaced", bool(ok), [], props, kind="struct", fn=fnq, replay=dict(kind="c12", vars={}), note="static Python leaves (ints such as shapes, strings) must come back as the same Python values")
         if ok:
             ctx.oblige("C12/unwrap[containers]/post/values", z3.And(*eqs) if eqs else z3.BoolVal(True), p.cond, props, kind="bounded/structure", fn=fnq)
         ctx.oblige("C12/unwrap[containers]/post/wrapper_free", wrapper_free(it, v), [], props, kind="struct", fn=fnq)
